@@ -20,6 +20,7 @@ ASSUMPTIONS = ["C02.R3 (BLOCKED published after the context is saved) and C04 (m
 RULES_DOC = dict(common.SHARED_DOC)
 RULES_DOC["X4"] = common.X4_DOC
 RULES_DOC["R7"] = "= C19.R2/R3: a timed-out waiter is unlinked completely (both neighbours, head and tail) before the wait returns: a later signal is not consumed by a stale node"
+RULES_DOC["X5"] = common.X5_DOC
 RULES_DOC.update({
     "R1": "wait/timedwait: mutex unlock inside the cond-lock section, then lock-transferring enqueue on the same cond, mutex re-locked last",
     "R2": "signal/broadcast: exactly one wait-list operation bracketed by the cond lock",
@@ -378,6 +379,7 @@ def rule_R6(P, rep):
 
 
 def run(P, rep, tier):
+    common.rule_widths(P, rep, [('ABTD_futex_multiple', 'val')])
     common.rule_X4(P, rep)
     v = P.variant
     common.run_shared(P, rep)
